@@ -202,6 +202,13 @@ def _full_mantissa(rng, o):
     return o2
 
 
+def _continuous(b):
+    """No interior knot of multiplicity >= order (the curve is at least C0)."""
+    info = gen.basis_info(b)
+    inner = [x for x in b['knots'] if info['start'] < x < info['end']]
+    return all(inner.count(x) < b['order'] for x in inner)
+
+
 def _rand_obj(rng, stream, **kw):
     kw.setdefault('max_interior', 2)
     o = gen.rand_object(rng, **kw)
@@ -386,7 +393,11 @@ def generate(rng, tier):
         scale = 10.0 ** rng.choice([-6, -3, 0, 0, 0, 3, 6]) if i % 5 == 4 else 1.0
         curves = []
         for _ in range(k):
-            o = gen.rand_object(rng, pardim=1, dim=2, rational=False, pmin=2, pmax=4, max_interior=3)
+            while True:
+                o = gen.rand_object(rng, pardim=1, dim=2, rational=False, pmin=2, pmax=4, max_interior=3)
+                # at least C0, and not a single repeated point (a periodic curve with one control point)
+                if _continuous(o['bases'][0]) and gen.basis_info(o['bases'][0])['n'] >= 2:
+                    break
             curves.append(_scaled(o, scale))
         pts = np.concatenate([np.array(c['cps'], dtype=float).reshape(-1, 2) for c in curves])
         if pts[:, 0].max() - pts[:, 0].min() <= 0:
@@ -543,7 +554,8 @@ def model_line(s):
         bez = []
         for c in s['curves']:
             try:
-                bez.append(_io(sp, 'svg').bezier_representation(gen.mk_object(sp, c)).controlpoints.reshape(-1, 2).tolist())
+                bz = _io(sp, 'svg').bezier_representation(gen.mk_object(sp, c)).controlpoints.reshape(-1, 2)
+                bez.append(bz.tolist() if np.isfinite(bz).all() else [])
             except Exception:
                 bez.append([])
         return line('svg_roundtrip', s['W'], s['H'], s['m'], from_spec, bez)
@@ -1032,18 +1044,50 @@ def oracle(sp, s):
 # =============================================================================================
 # bookkeeping
 
+def _split_broken(sp, o, raise_to=None):
+    """Root-cause probe for failures on periodic objects: does the library's own `split(start)` (after
+    `raise_order` to `raise_to` when given, as `bezier_representation` does) fail, return a non-open knot
+    vector, move the parameter domain or change the geometry (exact NURBS sum of the original)?"""
+    try:
+        obj = gen.mk_object(sp, o)
+        if raise_to is not None:
+            obj.raise_order(raise_to - obj.order(0))
+        orig = gen.mk_object(sp, o)
+        for i in range(obj.pardim):
+            if obj.periodic(i):
+                obj = obj.split(obj.start(i), i)
+        for i in range(obj.pardim):
+            if o['bases'][i]['periodic'] < 0:
+                continue
+            b = obj.bases[i]
+            kn = [float(x) for x in b.knots]
+            if kn[:b.order] != [kn[0]] * b.order or kn[-b.order:] != [kn[-1]] * b.order:
+                return True
+            if abs(obj.start(i) - orig.start(i)) > 1e-9 or abs(obj.end(i) - orig.end(i)) > 1e-9:
+                return True
+        params = [_span_params(_dknots(orig, dd), orig.order(dd)) for dd in range(orig.pardim)]
+        tuples = list(itertools.product(*params))
+        tuples = tuples[::max(1, len(tuples) // 16)]
+        want = np.array([[float(x) for x in exact.nurbs_point(o, t)] for t in tuples])
+        with np.errstate(all='ignore'):
+            got = np.array([np.asarray(obj(*t), dtype=float).reshape(-1) for t in tuples])
+        return not _close(got, want)
+    except Exception:  # noqa: BLE001
+        return True
+
+
 def classify(s, res=None):
     k = s['kind']
     msgs = ' '.join((res or {}).get('oracle') or [])
     if k == 'stl' and any(np.array(o['cps']).shape[-1] - int(o['rational']) == 2 for o in s['objs']):
         return 'stl-2d-surface-resize'
-    if k in ('g2w', 'svg') and any(not _nonperiodic(o) for o in _all_objs(s)):
-        if 'split raised' in msgs:
-            return 'periodic-seam-split'
-        if k == 'g2w' and res and not res.get('diff') and msgs:
-            # the file is token for token what the model writes for `split(start)` of the object, so the
-            # writer is faithful; what differs from the original is the result of the real split (C07)
-            return 'periodic-seam-split'
+    if k in ('g2w', 'svg') and msgs:
+        # failures on periodic objects are attributed to the seam split (C04/C07) only when the library's
+        # own split of that object is demonstrably broken
+        sp = _sp()
+        for o in _all_objs(s):
+            if not _nonperiodic(o) and _split_broken(sp, o, 4 if k == 'svg' else None):
+                return 'periodic-seam-split'
     if k == 'prim' and s['prim']['type'] == 'arc':
         return 'g2-circle-parameter-bounds-ignored'
     return None
